@@ -39,6 +39,11 @@ def support_of(nodes):
     return sorted({v for (v, l, h) in nodes[2:]})
 
 
+def funcs_sep(rng, nv, n):
+    fs = all_functions(nv) if nv <= 3 else []
+    return rng.sample(fs, min(n, len(fs)))
+
+
 def programs(rng, tier):
     P = Prog()
     quick = tier == "quick"
@@ -86,6 +91,15 @@ def programs(rng, tier):
             # the Bdd does not belong to the source set: more variables than names (name_of may panic) or fewer
             src = src[:rng.randrange(0, nv)] if rng.random() < 0.7 else src + [n for n in ALPHA8 if n not in src][:1]
         P.add(["transfer", bdd_sx(f), names_sx(src), names_sx(tgt)])
+
+    # names that contain the separators a printed name list uses (comma, space, comma + space): two DIFFERENT sets whose joined
+    # names coincide ("a","b","c" vs "a","b,c"; "a, b","c" vs "a","b, c"), in both directions, with functions of the source's width
+    sep_pairs = [(["a", "b", "c"], ["a", "b,c"]), (["a", "b,c"], ["a", "b", "c"]), (["a,b", "c"], ["a", "b,c"]), (["a", "b", "c"], ["a,b", "c"]),
+                 (["a, b", "c"], ["a", "b, c"]), (["x y", "z"], ["x", "y z"]), (["a", "b"], ["a,b"]), (["a,b"], ["a", "b"]),
+                 (["a", "b,c", "d"], ["a,b", "c,d"]), (["p", "q"], ["p", "q"])]
+    for src, tgt in sep_pairs:
+        for f in funcs_sep(rng, len(src), 6 if quick else 40):
+            P.add(["transfer", bdd_sx(f), names_sx(src), names_sx(tgt)])
 
     # ---- rename_variables
     def funcs(nv, n):
@@ -221,6 +235,9 @@ def check_result(call, res):
         tgt = [unhex(h).decode() for h in call[3][1:]]
         if res[0][0] != len(tgt):
             return {"problem": "the result is not over the target set's variable count", "result": sx_str(bdd_sx(res))}
+        missing = [src[x] for x in sup if x >= len(src) or src[x] not in tgt]
+        if missing:
+            return {"problem": "Some(..) although a support variable has no namesake in the target set", "missing_names": missing}
         mp = {x: tgt.index(src[x]) for x in sup}
         nt = len(tgt)
         if nt > 12:
